@@ -186,9 +186,9 @@ HARNESSES = [
     ),
     Harness(
         name="H10-redis", scenario=h10, workers=16, budget_s=900,
-        params={"quick": {"max_m": 1, "extra_max": 2, "queues": 1, "dmax_us": 250000, "max_limit": 2, "backend": "redis"},
-                "thorough": {"max_m": 2, "extra_max": 2, "queues": 1, "dmax_us": 250000, "max_limit": 2, "backend": "redis"}},
-        bounds={"broker": "real Redis broker/consumer (prefetch buffer) on the fake server", "M": "1 quick / [1,2] thorough", "backlog": "M+1..M+2",
+        params={"quick": {"max_m": 2, "extra_max": 3, "queues": 1, "dmax_us": 250000, "max_limit": 2, "backend": "redis"},
+                "thorough": {"max_m": 3, "extra_max": 3, "queues": 1, "dmax_us": 250000, "max_limit": 2, "backend": "redis"}},
+        bounds={"broker": "real Redis broker/consumer (prefetch buffer) on the fake server", "M": "[1,2] quick / [1,3] thorough", "backlog": "M+1..M+3",
                 "durations": "(0, 250 ms]", "tasks_limit": "[1, 2]"},
         functions=["connections/redis/consumer.py:_RedisConsumer.finish"], covers=["run-returned"], stubs=["fake Redis server"]),
     Harness(
